@@ -10,8 +10,10 @@ use crate::graph::{self, Ctx, Op};
 use crate::universes;
 
 fn setup(name: &str, depth: usize, rewinds: u32, wall: f64) -> (crate::universe::Universe, graph::Cfg) {
+    graph::TRACK_SCAN_CHECKPOINTS.store(true, std::sync::atomic::Ordering::Relaxed);
     let (u, mut cfg) = crate::c01::setup(name, depth, rewinds, wall);
     cfg.with_roots = true;
+    cfg.with_witness = true;
     cfg.check_trees = true;
     // one tip symbol is enough here: tips do not touch the trees
     cfg.tips.truncate(1);
@@ -23,7 +25,7 @@ pub fn replay(kind: &str, case: &Value) -> Result<(), String> {
     if kind != "history" {
         return Err(format!("unknown kind {kind}"));
     }
-    let name = case["universe"].as_str().unwrap_or("tiny");
+    let name = case["universe"].as_str().unwrap_or("tiny-trees");
     let ops: Vec<Op> = serde_json::from_value(case["ops"].clone()).map_err(|e| e.to_string())?;
     let (u, cfg) = setup(name, 99, 9, 1e9);
     let cx = Ctx { u: &u, cfg: &cfg, fresh: vec![] };
@@ -34,8 +36,8 @@ pub fn run(args: &Args) -> i32 {
     let run = Run::new(args, "model_checking");
     // (universe, depth, rewinds, wall cap, segment-level alphabet first?) — see c01.rs `params`
     let plan: Vec<(&str, usize, u32, f64, bool)> = match args.tier {
-        Tier::Quick => vec![("tiny", 8, 1, 22.0, true), ("tiny", 12, 1, 14.0, false)],
-        Tier::Thorough => vec![("tiny", 14, 2, 120.0, true), ("small", 12, 1, 300.0, false), ("mid", 8, 1, 400.0, false)],
+        Tier::Quick => vec![("tiny-trees", 8, 1, 26.0, true), ("tiny-trees", 12, 1, 20.0, false)],
+        Tier::Thorough => vec![("tiny-trees", 14, 2, 200.0, true), ("tiny-trees", 14, 2, 200.0, false), ("small", 12, 1, 300.0, false), ("mid", 8, 1, 400.0, false)],
     };
     run.set_rule(
         "explicit-state BFS over the real SQLite wallet (operations Scan, Tip, Rewind+switch branch, PutSubtreeRoots), states matched on a canonical \
